@@ -107,8 +107,9 @@ var repValue = ir.Rec(
 
 var repEntity = ir.Entity{UID: ir.Ent("T0", "a"), Parents: []ir.Value{ir.Ent("T1", "b"), ir.Ent("NS::T2", "c")}, Attrs: repValue.Fields, Tags: []ir.Field{ir.F("k", ir.Long(1)), ir.F("t2", ir.Set(ir.Str("x")))}}
 
-const repSchemaText = `@doc("top")
-type Name = String;
+const repSchemaText = `/* block ** comment **/ // line comment
+@doc("top")
+type Name = String; /***/
 entity Bare in [NS::User] { n: Name, "q k"?: Set<Long> } tags String;
 action bareAct appliesTo { principal: Bare, resource: [Bare, NS::User], context: { c?: Bool } };
 @a("x")
@@ -208,7 +209,7 @@ func representative(f format) []byte {
 	case fSchemaJSON:
 		b, ok = schemaJSONFromText(repSchemaText)
 	case fPolicyText:
-		return []byte(render.Policy(repPolicy(), render.Opts{}) + "\n" + render.Policy(repPolicy2(), render.Opts{}))
+		return []byte("/* block ** comment **/ // line comment\n" + render.Policy(repPolicy(), render.Opts{}) + "\n/***/" + render.Policy(repPolicy2(), render.Opts{}))
 	case fUIDText:
 		return []byte(`NS::T2::"a\"b"`)
 	case fSchemaText:
